@@ -55,6 +55,7 @@ def run(prog, chk):
     transform_names(prog, chk)
     index_is_position(prog, chk)
     formatter_cast_guarded(prog, chk)
+    endpoints_overwritten_only_when_absent(prog, chk)
     X.check_sinks(prog, chk)
     X.check_readers(prog, chk)
     chk.obs = [o for o in chk.obs if o["key"] not in ("A11.sink/events::<impl std::convert::From<events::OutputEvent> for quick_xml::events::Event<'a>>::from:from_escaped:comment",)]
@@ -69,6 +70,52 @@ def run(prog, chk):
     C08.author_wins(prog, chk)  # the root's own attributes (id, width, viewBox ...) are kept
     from props import strops
     strops.check_for(prog, chk, "C04")  # A14.str-ops: how this property's strings are cut up is a reviewed, frozen inventory
+
+
+def _derives_from_get_attr(body, op, key, depth=8):
+    """does the operand derive from `get_attr(<key>)` / `attrs.get(<key>)` (through is_none/is_some, unwrap_or, strp ...)?"""
+    if depth <= 0:
+        return False
+    o = R.origin(body, op, carriers={})
+    if o[0] == "call" and "fn" in o[2]:
+        c = Callee(o[2]["fn"])
+        if c.path.split("::")[-1] in ("get_attr", "get", "has_attr", "contains_key") and len(o[2]["args"]) >= 2:
+            k = R.origin(body, o[2]["args"][1], carriers=dict(R.CARRIERS))
+            if k[0] == "const" and k[1].get("str") == key:
+                return True
+        return any(_derives_from_get_attr(body, a, key, depth - 1) for a in o[2]["args"])
+    if o[0] == "rv":
+        rv = o[1]
+        if rv.get("k") == "discr":
+            return _derives_from_get_attr(body, {"c": list(rv["place"]) if isinstance(rv["place"], (list, tuple)) else rv["place"]}, key, depth - 1)
+        return any(isinstance(rv.get(kk), dict) and _derives_from_get_attr(body, rv[kk], key, depth - 1) for kk in ("op", "a", "b"))
+    return False
+
+
+def endpoints_overwritten_only_when_absent(prog, chk):
+    """a line's end points may be written with units or percentages (plain SVG): set_position_attrs replaces x1/y1/x2/y2
+    only under a test of that attribute itself (absent -> derived value; present and numeric -> moved by dx/dy); a
+    decision based on the *parsed* position treats "present but not a plain number" as absent and overwrites it"""
+    b = prog.body("svgdx::position::Position::set_position_attrs")
+    chk.touch(b)
+    from sa import discharge as D
+
+    n = 0
+    for (bb, t, c) in b.call_sites(R.path_endswith("SvgElement::set_attr")):
+        if len(t["args"]) < 2:
+            continue
+        k = R.origin(b, t["args"][1], carriers=dict(R.CARRIERS))
+        key = k[1].get("str") if k[0] == "const" else None
+        if key not in ("x1", "y1", "x2", "y2"):
+            continue
+        n += 1
+        guarded = False
+        for (a, x) in D.dominating_edges(b, bb):
+            tt = b.term(a)
+            if tt["k"] == "switch" and _derives_from_get_attr(b, tt["op"], key):
+                guarded = True
+        chk.ob(guarded, "A13.endpoint-overwrite", f"set_position_attrs:{key}", b.where(bb, t.get("line")), f"`{key}` is written under a test of the `{key}` attribute itself", f"set_position_attrs writes `{key}` under conditions that do not test the `{key}` attribute itself (e.g. only the parsed position): a value that is present but not a plain number - `{key}=\"100%\"`, a length with a unit, a still unresolved reference - counts as absent and is overwritten")
+    chk.floor("A13.endpoint-overwrite", n, 8, "set_attr of a line end point in set_position_attrs")
 
 
 def filter_closed(prog, chk):
